@@ -551,6 +551,20 @@ func (p *plClient) SendDisconnect(chat.Message) { p.disconnected = true }
 //go:norace
 func (p *plClient) wasDisconnected() bool { return p.disconnected }
 
+// clientRegistry: clients that got into the list at some time (for the moderator).
+type clientRegistry struct{ all []*plClient }
+
+//go:norace
+func (r *clientRegistry) add(c *plClient) { r.all = append(r.all, c) }
+
+//go:norace
+func (r *clientRegistry) pick(k int) *plClient {
+	if len(r.all) == 0 {
+		return nil
+	}
+	return r.all[k%len(r.all)]
+}
+
 type listState struct {
 	maxSeen int
 	err     string
@@ -583,9 +597,11 @@ func scenarioL(c *harness.Ctx) {
 	rounds := 1 + tp.Choose(3)
 	c.Config["capacity"] = capacity
 	c.Config["players"] = n
-	style := make([]int, n) // bit 0: ClientLeft also after a refused join; bit 1: leaves twice; bit 2: joins without CheckPlayer
+	style := make([]int, n) // bit 0: ClientLeft also after a refused join; bit 1: leaves twice; bit 2: joins without CheckPlayer; bit 3: joins again while listed
+	kicks := tp.Choose(4)   // a moderator task removes listed clients at its own pace
+	reg := &clientRegistry{}
 	for i := range style {
-		style[i] = tp.Choose(8)
+		style[i] = tp.Choose(16)
 	}
 	st := &listState{}
 	final := [3]int{-1, -1, -1}
@@ -624,7 +640,16 @@ func scenarioL(c *harness.Ctx) {
 						continue
 					}
 					st.observe(pl.Len(), capacity, "Len() after a successful join")
+					reg.add(cl)
 					for k := tp.Choose(3); k > 0; k-- {
+						w.Yield("harness.player")
+					}
+					if style[i]&8 != 0 {
+						// the same client announces itself again (e.g. to refresh its
+						// sample) - possibly while a moderator is kicking it
+						pListRejoin.Hit()
+						pl.ClientJoin(cl, server.PlayerSample{Name: fmt.Sprintf("p%d", i), ID: ids[i]})
+						st.observe(pl.Len(), capacity, "Len() after a repeated join of a listed client")
 						w.Yield("harness.player")
 					}
 					pl.ClientLeft(cl)
@@ -632,6 +657,17 @@ func scenarioL(c *harness.Ctx) {
 						// leaving twice (connection clean-up and an explicit kick) is harmless
 						pl.ClientLeft(cl)
 					}
+				}
+			})
+		}
+		if kicks > 0 {
+			w.Go("moderator", func() {
+				for k := 0; k < kicks*2; k++ {
+					if cl := reg.pick(tp.Choose(1 << 16)); cl != nil {
+						pListKick.Hit()
+						pl.ClientLeft(cl)
+					}
+					w.Yield("harness.moderator")
 				}
 			})
 		}
@@ -701,3 +737,6 @@ var pListLeftAfterRefusal = simrt.NewProbe("playerlist.ClientLeft.after.a.refuse
 
 var pListLateAdmitted = simrt.NewProbe("playerlist.newcomer.admitted.after.everybody.left")
 var pListEmptyAtEnd = simrt.NewProbe("playerlist.empty.after.everybody.left(Len,OnlinePlayer,Range)")
+
+var pListRejoin = simrt.NewProbe("playerlist.ClientJoin.again.by.a.listed.client")
+var pListKick = simrt.NewProbe("playerlist.ClientLeft.by.another.task(moderator)")
